@@ -47,11 +47,11 @@ def _pyval(v, m=None, depth=0):
             k = v.decl().kind()
             name = v.decl().name()
             if v.sort().kind() == z3.Z3_DATATYPE_SORT:
-                if name == 'none':
+                if name.startswith('none_'):
                     return None
-                if name == 'some':
+                if name.startswith('some_'):
                     return _pyval(v.arg(0), m, depth + 1)
-                if name == 'mk':
+                if name.startswith('mk_'):
                     return {'tuple': [_pyval(v.arg(i), m, depth + 1) for i in range(v.num_args())]}
             if k == z3.Z3_OP_SEQ_EMPTY:
                 return []
